@@ -145,7 +145,8 @@ def MatIn.ofDMat (lay : Layout) (M : DMat α) : MatIn α :=
   ⟨lay, ⟨⟨e 0 0, e 0 1, e 0 2⟩, ⟨e 1 0, e 1 1, e 1 2⟩, ⟨e 2 0, e 2 1, e 2 2⟩⟩, ⟨e 0 3, e 1 3, e 2 3⟩,
     ⟨e 3 0, e 3 1, e 3 2⟩, e 3 3⟩
 
-/-- the 4×4 branch of `mat2SE3` / `mat2Sim3` only *warns* when the last row is not `(0 0 0 1)` -/
+/-- the row test behind the warning of `mat2SE3` / `mat2Sim3`: a 4×4 item whose last row is not `(0 0 0 1)` within the
+tolerances, with `check=True` (which converters perform it: `lastRowWarnBatch` below) -/
 def lastRowWarn (check : Bool) (rtol atol : α) (m : MatIn α) : Bool :=
   match m.lay with
   | .m44 => check && !(Vec3.allclose rtol atol m.last Vec3.zero && closeTo rtol atol m.l3 (k 1))
@@ -238,6 +239,15 @@ inductive GTy where
   | Sim3
   | RxSO3
 deriving Repr, DecidableEq, Inhabited
+
+/-- the last-row **warning** (not an error): only `mat2SE3` and `mat2Sim3` look at the last row of a 4×4 input
+(`convert.py`: `if shape[-2:] == (4, 4) and check == True: … allclose(mat[..., 3, :], [0,0,0,1])` over the whole batch);
+`mat2SO3` and `mat2RxSO3` never inspect it -/
+def lastRowWarnBatch (ty : GTy) (check : Bool) (rtol atol : α) (ms : List (MatIn α)) : Bool :=
+  match ty with
+  | .SE3 => ms.any (lastRowWarn check rtol atol)
+  | .Sim3 => ms.any (lastRowWarn check rtol atol)
+  | _ => false
 
 def fromMatrixBatch (ty : GTy) (detK : Mat3 α → α) (check : Bool) (rtol atol : α) (ms : List (MatIn α)) :
     Except ConvErr (List (List α)) :=
